@@ -268,6 +268,7 @@ func runC17(c *Ctx, r *Rec) {
 	checkIteratorSnapshots(c, r)
 	checkIteratorNotShared(c, r, it)
 	checkNoSecondLookup(c, r, "D2-snapshot-holds-the-entries")
+	checkAssociationKeyFrozen(c, r, "D2-snapshot-cells-keep-their-key")
 }
 
 // fieldsWrittenInMethods: struct fields assigned (or inc/dec'd, or address-taken) in any method of n.
